@@ -459,6 +459,54 @@ inline std::string check_tree(tree_instance* ti, const Model& m, WalkOut* wout =
     return e;
 }
 
+// independent accounting for mem_usage
+inline std::string check_mem_usage(tree_instance* ti, const std::string& storage) {
+    memory_usage_stack got = mem_usage(storage);
+    std::vector<std::tuple<std::size_t, std::size_t, std::size_t>> want;
+    std::function<void(base_node*, std::size_t)> rec = [&](base_node* n, std::size_t level) {
+        if (want.size() <= level) want.resize(level + 1, {0, 0, 0});
+        if (auto* in = dynamic_cast<interior_node*>(n)) {
+            std::get<0>(want[level])++;
+            std::get<2>(want[level]) += sizeof(interior_node);
+            std::size_t nk = in->n_keys_.load();
+            for (std::size_t i = 0; i <= nk; ++i) rec(in->children[i], level + 1);
+        } else {
+            auto* bn = dynamic_cast<border_node*>(n);
+            std::get<0>(want[level])++;
+            std::get<2>(want[level]) += sizeof(border_node);
+            std::uint64_t perm = bn->permutation_.body_.load();
+            std::size_t cnk = perm & 0xf;
+            for (std::size_t r = 0; r < cnk; ++r) {
+                std::size_t slot = (perm >> (4 * (r + 1))) & 0xf;
+                base_node* child = bn->lv_[slot].get_next_layer();
+                if (child != nullptr) {
+                    rec(child, level + 1);
+                } else {
+                    value* vp = bn->lv_[slot].get_value();
+                    if (vp != nullptr && value::is_value_ptr(vp)) {
+                        // the block starts at the value header (the body of a zero-length value is one past the end)
+                        auto info = ykalloc::lookup(std::get<0>(value::get_gc_info(vp)));
+                        if (info.found) std::get<2>(want[level]) += info.size;
+                    }
+                }
+            }
+        }
+    };
+    if (ti->root_ != nullptr) rec(ti->root_, 0);
+    std::ostringstream e;
+    if (got.size() != want.size()) {
+        e << "mem_usage has " << got.size() << " levels, tree has " << want.size();
+        return e.str();
+    }
+    for (std::size_t l = 0; l < got.size(); ++l) {
+        if (std::get<0>(got[l]) != std::get<0>(want[l])) e << "level " << l << ": node count " << std::get<0>(got[l]) << " want " << std::get<0>(want[l]) << "; ";
+        if (std::get<2>(got[l]) != std::get<2>(want[l])) e << "level " << l << ": reserved " << std::get<2>(got[l]) << " want " << std::get<2>(want[l]) << "; ";
+        if (std::get<1>(got[l]) > std::get<2>(got[l])) e << "level " << l << ": used " << std::get<1>(got[l]) << " > reserved " << std::get<2>(got[l]) << "; ";
+    }
+    return e.str();
+}
+
+
 // ------------------------------------------------------------------------------------------
 // library statics (many executions share one process)
 // ------------------------------------------------------------------------------------------
